@@ -5,6 +5,7 @@ import (
 	"crypto/sha256"
 	"fmt"
 	"math/big"
+	"net/url"
 	"os"
 	"regexp"
 	"sort"
@@ -200,7 +201,7 @@ func RunE1(sc Script, opt E1Opts) *E1Result {
 		if step.ExpectError {
 			res.RejectedForSize = true
 			if err == nil {
-				res.add("C18", "op %d: write would exceed SegmentMaxSize=%d (open segment holds %v payload bytes) but Write returned nil", i, model.MaxSize, model.Open.Size)
+				res.add("C18", "op %d: write would exceed SegmentMaxSize=%d but Write returned nil", i, model.MaxSize)
 			}
 			break // the script ends at the first failing write
 		}
@@ -208,7 +209,7 @@ func RunE1(sc Script, opt E1Opts) *E1Result {
 			if strings.HasPrefix(err.Error(), "PANIC") {
 				res.add("C08", "op %d: %v", i, err)
 			} else if strings.Contains(err.Error(), "maximum segment size") {
-				res.add("C18", "op %d: Write rejected for size although the open segment would hold only %v of %d payload bytes", i, model.Open.Size, model.MaxSize)
+				res.add("C18", "op %d: Write rejected for size (%v) although the model's open segment stays within SegmentMaxSize=%d", i, err, model.MaxSize)
 			} else {
 				res.add("C01", "op %d: Write failed on a well-formed sequence: %v", i, err)
 			}
@@ -555,8 +556,8 @@ func (e *e1) checkPlaylist(s string, x *m3u8x.XMedia, text string, final bool) {
 			bad("C06", "segment URI %s carries a _HLS_ directive", seg.URI)
 			return
 		}
-		if q != filterHLS(e.opt.Query) && cfg.Variant != VariantMPEGTS {
-			bad("C16", "segment URI %s does not carry the request's query %q", seg.URI, e.opt.Query)
+		if !sameQuery(q, filterHLS(e.opt.Query)) {
+			bad("C06", "segment URI %s does not carry the request's query %q", seg.URI, e.opt.Query)
 			return
 		}
 		m := segRe.FindStringSubmatch(base)
@@ -773,6 +774,16 @@ func (e *e1) checkPlaylist(s string, x *m3u8x.XMedia, text string, final bool) {
 	if e.opt.ProbeUnknown {
 		e.probe(s, x, bad)
 	}
+}
+
+// sameQuery compares two raw queries as key/value multisets (the muxer may re-encode them).
+func sameQuery(a, b string) bool {
+	qa, ea := url.ParseQuery(a)
+	qb, eb := url.ParseQuery(b)
+	if ea != nil || eb != nil {
+		return a == b
+	}
+	return qa.Encode() == qb.Encode()
 }
 
 func filterHLS(q string) string {
